@@ -47,16 +47,16 @@ Hypothesis set_set : forall b l l', set (set b l) l' = set b l'.
 Hypothesis set_get : forall b, set b (get b) = b.
 Variable strs : list (list N).
 
-Definition atoi_body : Z -> imp_bed_BED * bool -> res (imp_bed_BED * bool) (imp_bed_BED * bool) :=
-  (fun i_2 '(bed, err) => go_index strs i_2 (fun t__46 => let '(t__47, t__48) := go_atoi t__46 in go_set (get bed) i_2 t__47 (fun t__49 => let bed := (set bed t__49) in let err := t__48 in (if err then Ret (zero_bed, true) else Next (bed, err))))).
+Definition atoi_body : Z -> imp_bed_BED * Z -> res (imp_bed_BED * Z) (imp_bed_BED * Z) :=
+  (fun i_2 '(bed, err) => go_index strs i_2 (fun t__46 => let '(t__47, t__48) := go_atoi_z t__46 in go_set (get bed) i_2 t__47 (fun t__49 => let bed := (set bed t__49) in let err := t__48 in (if (negb (Z.eqb err 0%Z)) then Ret (zero_bed, 2) else Next (bed, err))))).
 
 Lemma atoi_loop : forall rest done vals bed err,
   strs = done ++ rest -> length vals = length done ->
   get bed = vals ++ repeat 0 (length rest) ->
   go_iter atoi_body (zseq (Z.of_nat (length done)) (length rest)) (bed, err)
   = match Bed.atoi_all rest with
-    | Some zs => Next (set bed (vals ++ zs), match rest with [] => err | _ => false end)
-    | None => Ret (zero_bed, true)
+    | Some zs => Next (set bed (vals ++ zs), match rest with [] => err | _ => 0 end)
+    | None => Ret (zero_bed, 2)
     end.
 Proof.
   induction rest as [|x rest IH]; intros done vals bed err Hs Hl Hg.
@@ -65,10 +65,10 @@ Proof.
   - cbn [length]. rewrite zseq_cons. cbn [go_iter Bed.atoi_all].
     unfold atoi_body at 1. rewrite Hs at 1.
     rewrite (go_index_mid done x rest _ _ eq_refl).
-    unfold go_atoi. rewrite Hg. cbn [length repeat].
+    unfold go_atoi_z. rewrite Hg. cbn [length repeat].
     assert (Hi : Z.of_nat (length done) = go_len vals) by (unfold go_len; lia).
     destruct (atoi x) as [z|]; cbv iota beta;
-      rewrite (go_set_mid vals 0 (repeat 0 (length rest)) _ _ _ Hi); cbv zeta; cbv iota; [|reflexivity].
+      rewrite (go_set_mid vals 0 (repeat 0 (length rest)) _ _ _ Hi); cbv zeta; cbv iota; cbn [Z.eqb Pos.eqb negb]; cbv iota; [|reflexivity].
     replace (Z.of_nat (length done) + 1) with (Z.of_nat (length (done ++ [x]))) by (rewrite app_length; cbn [length]; lia).
     rewrite (IH (done ++ [x]) (vals ++ [z])).
     + destruct (Bed.atoi_all rest) as [zs|]; [|reflexivity].
@@ -80,8 +80,8 @@ Qed.
 End AtoiLoop.
 
 (* ---- the RGB triple ----------------------------------------------------------------------------- *)
-Definition rgb_body (rgb : list (list N)) : Z -> imp_bed_BED -> res imp_bed_BED (imp_bed_BED * bool) :=
-  (fun i bed => go_index rgb i (fun t__35 => let '(t__36, t__37) := go_parse_uint_0_8 t__35 in let a := t__36 in let err_2 := t__37 in after (if err_2 then Ret (zero_bed, true) else Next tt) (fun 'tt => go_set (imp_bed_BED_ItemRGB bed) i (go_byte a) (fun t__38 => let bed := (imp_bed_BED_with_ItemRGB bed t__38) in Next bed)))).
+Definition rgb_body (rgb : list (list N)) : Z -> imp_bed_BED -> res imp_bed_BED (imp_bed_BED * Z) :=
+  (fun i bed => go_index rgb i (fun t__35 => let '(t__36, t__37) := go_parse_uint_0_8_z t__35 in let a := t__36 in let err_2 := t__37 in after (if (negb (Z.eqb err_2 0%Z)) then Ret (zero_bed, 2) else Next tt) (fun 'tt => go_set (imp_bed_BED_ItemRGB bed) i (go_byte a) (fun t__38 => let bed := (imp_bed_BED_with_ItemRGB bed t__38) in Next bed)))).
 
 Lemma rgb_get_set b l : imp_bed_BED_ItemRGB (imp_bed_BED_with_ItemRGB b l) = l.
 Proof. reflexivity. Qed.
@@ -97,25 +97,25 @@ Lemma rgb_step rgb i (bed : imp_bed_BED) s pre v post :
   rgb_body rgb i bed
   = match Bed.parse_uint8 s with
     | Some x => Next (imp_bed_BED_with_ItemRGB bed (pre ++ x :: post))
-    | None => Ret (zero_bed, true)
+    | None => Ret (zero_bed, 2)
     end.
 Proof.
   intros Hs Hi Hg Hp. unfold rgb_body. rewrite (go_index_some rgb i s) by assumption.
-  unfold go_parse_uint_0_8. destruct (Bed.parse_uint8 s) as [x|] eqn:E; cbv iota beta zeta; cbn [after]; [|reflexivity].
+  unfold go_parse_uint_0_8_z. destruct (Bed.parse_uint8 s) as [x|] eqn:E; cbv iota beta zeta; cbn [after]; [|reflexivity].
   rewrite Hg, (go_set_mid pre v post _ _ _ Hp). rewrite go_byte_of_N by (eapply parse_uint8_bound; exact E). reflexivity.
 Qed.
 
 Lemma rgb_stage rgb (bed : imp_bed_BED) : imp_bed_BED_ItemRGB bed = [0; 0; 0]%N ->
-  after (if negb (go_len rgb =? 3) then Ret (zero_bed, true) else Next tt)
+  after (if negb (go_len rgb =? 3) then Ret (zero_bed, 2) else Next tt)
     (fun 'tt => after (go_range_int (go_len rgb) (rgb_body rgb) bed) (fun bed => Next (S := imp_bed_BED) bed))
   = match rgb with
     | [a; b; c] =>
-      match Bed.parse_uint8 a with None => Ret (zero_bed, true) | Some x =>
-      match Bed.parse_uint8 b with None => Ret (zero_bed, true) | Some y =>
-      match Bed.parse_uint8 c with None => Ret (zero_bed, true) | Some z =>
+      match Bed.parse_uint8 a with None => Ret (zero_bed, 2) | Some x =>
+      match Bed.parse_uint8 b with None => Ret (zero_bed, 2) | Some y =>
+      match Bed.parse_uint8 c with None => Ret (zero_bed, 2) | Some z =>
         Next (imp_bed_BED_with_ItemRGB bed [x; y; z])
       end end end
-    | _ => Ret (zero_bed, true)
+    | _ => Ret (zero_bed, 2)
     end.
 Proof.
   intros Hg. destruct rgb as [|a [|b [|c [|d r]]]]; try reflexivity.
@@ -131,7 +131,7 @@ Proof.
 Qed.
 
 (* ---- parseLine --------------------------------------------------------------------------------------- *)
-Lemma go_index_fld (F : list (list N)) k (K : list N -> res unit (imp_bed_BED * bool)) :
+Lemma go_index_fld (F : list (list N)) k (K : list N -> res unit (imp_bed_BED * Z)) :
   (k < length F)%nat -> go_index F (Z.of_nat k) K = K (nth k F []).
 Proof.
   intros H. rewrite (go_index_nth F (Z.of_nat k) []) by (unfold go_len; lia). rewrite Nat2Z.id. reflexivity.
@@ -171,11 +171,11 @@ Lemma ints_stage get set (get_set : forall b l, get (set b l) = l)
   (if negb (beqb s [])
    then let sizes := split_on 44%N s in
         go_make 0 (go_len sizes) (fun t__45 => let bed := set bed t__45 in
-          after (go_range_int (go_len sizes) (atoi_body get set sizes) (bed, false)) (fun '(bed, err) => Next (bed, err)))
-   else Next (bed, false))
+          after (go_range_int (go_len sizes) (atoi_body get set sizes) (bed, 0)) (fun '(bed, err) => Next (bed, err)))
+   else Next (bed, 0))
   = match Bed.parse_ints s with
-    | None => Ret (zero_bed, true)
-    | Some zs => Next (S := imp_bed_BED * bool) (R := imp_bed_BED * bool) (set bed zs, false)
+    | None => Ret (zero_bed, 2)
+    | Some zs => Next (S := imp_bed_BED * Z) (R := imp_bed_BED * Z) (set bed zs, 0)
     end.
 Proof.
   intros Hg. unfold Bed.parse_ints. destruct s as [|c r].
@@ -184,7 +184,7 @@ Proof.
     set (sizes := split_on 44%N (c :: r)).
     unfold go_make, go_range_int, go_len. destruct (Z.ltb_spec (Z.of_nat (length sizes)) 0); [lia|].
     rewrite Nat2Z.id.
-    rewrite (atoi_loop get set get_set set_set set_get sizes sizes [] [] _ false eq_refl eq_refl)
+    rewrite (atoi_loop get set get_set set_set set_get sizes sizes [] [] _ 0 eq_refl eq_refl)
       by (rewrite get_set; reflexivity).
     destruct (Bed.atoi_all sizes) as [zs|]; [|reflexivity].
     cbn [after app]. rewrite set_set. destruct sizes; reflexivity.
@@ -192,7 +192,7 @@ Qed.
 
 Theorem imp_parseLine fields :
   imp_bed_parseLine fields
-  = match Bed.parse_line fields with Ok b => Ret (bed_of b, false) | _ => Ret (zero_bed, true) end.
+  = match Bed.parse_line fields with Ok b => Ret (bed_of b, 0) | _ => Ret (zero_bed, 2) end.
 Proof.
   unfold imp_bed_parseLine, Bed.parse_line. cbv zeta. unfold bytes, byte in *.
   change (Imp_bed_BED 0 [] 0 0 [] 0 [] 0 0 (repeat 0%N 3) 0 [] []) with zero_bed.
@@ -214,15 +214,15 @@ Proof.
       let n := eval compute in (Z.to_nat k) in change (Z.to_nat k) with n
     end.
   Ltac atoi_stage := 
-    match goal with |- context [go_atoi ?s] =>
-      unfold go_atoi at 1; destruct (atoi s); cbv iota beta; cbn [after]; [|reflexivity] end.
+    match goal with |- context [go_atoi_z ?s] =>
+      unfold go_atoi_z at 1; destruct (atoi s); cbv iota beta; cbn [after]; [|reflexivity] end.
   Ltac opt_stage setter :=
     match goal with |- context [after (if negb (beqb ?s []) then ?A else Next (?bed, ?err)) ?K] =>
       let E := fresh "E" in
       assert (E : (if negb (beqb s []) then A else Next (bed, err))
-                  = match Bed.opt_atoi s with None => Ret (zero_bed, true)
-                    | Some v => Next (S := imp_bed_BED * bool) (setter bed v, false) end)
-        by (unfold Bed.opt_atoi, go_atoi; destruct s; [reflexivity|]; cbn [beqb negb];
+                  = match Bed.opt_atoi s with None => Ret (zero_bed, 2)
+                    | Some v => Next (S := imp_bed_BED * Z) (setter bed v, 0) end)
+        by (unfold Bed.opt_atoi, go_atoi_z; destruct s; [reflexivity|]; cbn [beqb negb];
             match goal with |- context [atoi ?x] => destruct (atoi x) end; reflexivity);
       rewrite E; clear E; destruct (Bed.opt_atoi s); cbn [after]; [|reflexivity]
     end.
@@ -238,7 +238,7 @@ Proof.
   match goal with |- context [after (if negb (beqb ?s []) then ?A else Next ?bed) ?K] =>
     assert (E : (if negb (beqb s []) then A else Next bed)
                 = match Bed.parse_rgb s with
-                  | None => Ret (zero_bed, true)
+                  | None => Ret (zero_bed, 2)
                   | Some p => let '(x, y, z) := p in Next (S := imp_bed_BED) (imp_bed_BED_with_ItemRGB bed [x; y; z])
                   end)
   end.
@@ -250,21 +250,21 @@ Proof.
   rewrite E; clear E. destruct (Bed.parse_rgb (nth 8 F [])) as [[[r g] bl]|]; cbn [after]; [|reflexivity].
   fld F. opt_stage imp_bed_BED_with_BlockCount.
   fld F.
-  match goal with |- context [after (if negb (beqb ?s []) then ?A else Next (?bed, false)) ?K] =>
-    assert (E : (if negb (beqb s []) then A else Next (bed, false))
+  match goal with |- context [after (if negb (beqb ?s []) then ?A else Next (?bed, 0)) ?K] =>
+    assert (E : (if negb (beqb s []) then A else Next (bed, 0))
                 = match Bed.parse_ints s with
-                  | None => Ret (zero_bed, true)
-                  | Some zs => Next (S := imp_bed_BED * bool) (imp_bed_BED_with_BlockSizes bed zs, false)
+                  | None => Ret (zero_bed, 2)
+                  | Some zs => Next (S := imp_bed_BED * Z) (imp_bed_BED_with_BlockSizes bed zs, 0)
                   end)
       by exact (ints_stage imp_bed_BED_BlockSizes imp_bed_BED_with_BlockSizes sizes_get_set sizes_set_set sizes_set_get s bed eq_refl)
   end.
   rewrite E; clear E. destruct (Bed.parse_ints (nth 10 F [])) as [sizes|]; cbn [after]; [|reflexivity].
   fld F.
-  match goal with |- context [after (if negb (beqb ?s []) then ?A else Next (?bed, false)) ?K] =>
-    assert (E : (if negb (beqb s []) then A else Next (bed, false))
+  match goal with |- context [after (if negb (beqb ?s []) then ?A else Next (?bed, 0)) ?K] =>
+    assert (E : (if negb (beqb s []) then A else Next (bed, 0))
                 = match Bed.parse_ints s with
-                  | None => Ret (zero_bed, true)
-                  | Some zs => Next (S := imp_bed_BED * bool) (imp_bed_BED_with_BlockStarts bed zs, false)
+                  | None => Ret (zero_bed, 2)
+                  | Some zs => Next (S := imp_bed_BED * Z) (imp_bed_BED_with_BlockStarts bed zs, 0)
                   end)
       by exact (ints_stage imp_bed_BED_BlockStarts imp_bed_BED_with_BlockStarts starts_get_set starts_set_set starts_set_get s bed eq_refl)
   end.
